@@ -20,6 +20,13 @@ CLAIMED["C01"] = ("full", "6/C01", "Lean 4 proof: kernel evaluation (`decide +ke
   "table_sound + syntax_sound + C01_sound (every mnemonic, syntax, suffix, every operand value: accepted => ISA opcode of the denoted shape at the ruled width + truncated LE value, nothing else), C01_rejects (undefined => rejected), supported_kept (all 227 supported encodings keep assembling for every fitting value). Tie: Gen.opcodeTable / Gen.indexMap + stream S2 (one-instruction programs over the complete mnemonic x 48 shapes x suffix x magnitude product in thorough; every table row quick) with the ISA oracle on the real code; S0 width rule.",
   "Branch operands are C05's subject; negative operands without a suffix and `.l` with a value outside 0..2^24-1 carry no claim (DESIGN section 8). Spec/ISA.lean is a hand transcription of the WDC matrix guarded by two kernel-checked sanity theorems.")
 
+CLAIMED["C11"] = ("full", "6/C11", "Lean 4 proof by induction over the 0xFFFF split loop and the block list (writer vs an independent standard IPS reader and patcher), omega for the byte-level header lemma; differential correspondence of the real IPSWriter",
+  "write_parses (file = PATCH ++ body ++ EOF and the standard reader reads exactly the expected records), chunks_sizes (1..65535), apply_is_writes (patch effect = the blocks at their addresses, +0x200 with copier header, in order), empty_block_noop, unrepresentable_refused; all for every write sequence, any lengths/addresses. Tie: stream S8-ipsw (lengths around multiples of 65535, offsets around 0x454F46 / 2^24 / negative, copier on/off) with the reader/patcher oracle on the real file.",
+  "Partial output left in the file object when the writer raises is not modelled (the result is `error`).")
+CLAIMED["C13"] = ("full", "6/C13", "Lean 4 proof by induction over the record loop: the reader of IncludeIpsNode equals the standard IPS reader shifted by delta on every byte string, and rejects exactly the malformed ones; differential correspondence on generated files",
+  "include_is_shifted_patch + malformed_rejected for every byte string and every signed delta (plain, run-length, max-length records). Tie: stream S8-ipsr (records of all kinds, truncations, bad header, no EOF, trailing bytes, exact file sizes k*8192+{-3..3}) and S8-include-in-program (surroundings unaffected, records in order).",
+  "File I/O (open/read) is modelled as a byte list; buffering behaviour is exercised by the size-at-buffer-boundary files.")
+
 NOT_YET = {}
 
 def main():
